@@ -18,6 +18,7 @@ structure St where
   preds : List (Nat × TextPred) := []
   wild : Bool := false
   qfree : Bool := true
+  oldRange : Bool := false   -- behavioural probe: the code under test has the pre-5d2fccd range test
   cur : String := ""
   curM : Array Match := #[]
   curC : Array CapEv := #[]
@@ -104,8 +105,8 @@ def runChk (s : St) (ws : List String) : String :=
   | "a" :: m :: c :: kind :: rest =>
     let inc := incOf kind (rest.map natOf)
     let ms := getM s m; let cs := getC s c
-    let ok := judgeA ms cs inc
-    s!"{head} clause=a judge={verdict ok (explainA ms cs inc)} corr=- n1={ms.length} n2={cs.length} ranged={inc.isSome} wild={s.wild}"
+    let ok := judgeA ms cs inc s.oldRange
+    s!"{head} clause=a judge={verdict ok (explainA ms cs inc s.oldRange)} corr=- n1={ms.length} n2={cs.length} ranged={inc.isSome} wild={s.wild}"
   | ["h", m, c] =>
     let ms := getM s m; let cs := getC s c
     let ok := judgeA ms cs none
@@ -208,7 +209,8 @@ def step (s : St) (line : String) : IO St := do
     IO.println s!"unit#{s.uid} clause=u judge={if s.heapOk then "ok" else "FAIL heap-property"} corr={corr}"
     return { s with uid := s.uid + 1 }
   match line.splitOn " " with
-  | ["case", id] => return { id := id }
+  | ["case", id] => return { id := id, oldRange := s.oldRange }
+  | ["probe", "node_precedes_range", v] => return { s with oldRange := v == "old" }
   | ["text", h] => return { s with text := (unhexBytes h).toArray }
   | ["text"] => return { s with text := #[] }
   | ["query", h] =>
